@@ -159,6 +159,38 @@ def _c02_specs(tier):
     return sp
 
 
+def _c04_specs(tier):
+    sp = []
+    for conf in ('default', 'tight', 'open'):
+        sp.append(('c04-%s-hand' % conf, ['--conf', conf, '--gset', 'hand', '--syms', 'SIL,AH,G,OW,T,_', '--segs', '3', '--routes', 'api,aligntext']))
+        sp.append(('c04-%s-enum22' % conf, ['--conf', conf, '--gset', 'enum:2:2', '--words', 'a,go', '--syms', 'SIL,AH,G,OW,_', '--segs', '3',
+                                           '--routes', 'api,aligntext']))
+    if tier == 'thorough':
+        for conf in ('default', 'tight', 'open'):
+            sp.append(('c04-%s-enum23' % conf, ['--conf', conf, '--gset', 'enum:2:3', '--words', 'a,go,no', '--syms', SYM3, '--segs', '3',
+                                               '--routes', 'api,aligntext']))
+            sp.append(('c04-%s-goat' % conf, ['--conf', conf, '--gset', 'enum:2:2', '--words', 'goat,ago,at', '--syms', 'SIL,G,OW,T,AE,AH,_', '--segs', '3',
+                                             '--routes', 'api,aligntext']))
+        sp.append(('c04-open-nofiller', ['--conf', 'open', '--filler', '0', '--gset', 'enum:2:3', '--words', 'a,go,no', '--syms', SYM3, '--segs', '3',
+                                         '--routes', 'api']))
+    return sp
+
+
+def _c14_specs(tier):
+    sp = []
+    sy = 'SIL,S,EY,B,AE,K,T,AH,_'
+    for fr in ('0', '50'):
+        sp.append(('c14-special-frate%s' % fr, ['--conf', 'open', '--frate', fr, '--gset', 'special', '--syms', sy, '--segs', '3',
+                                               '--routes', 'api,fsgtext']))
+        sp.append(('c14-enum22-frate%s' % fr, ['--conf', 'default', '--frate', fr, '--gset', 'enum:2:2', '--words', 'a,go', '--syms', 'SIL,AH,G,OW,_',
+                                              '--segs', '2', '--lens', '1,3,4', '--routes', 'api,jsgf']))
+    sp.append(('c14-hand-open', ['--conf', 'open', '--gset', 'hand', '--syms', 'SIL,AH,G,OW,T,_', '--segs', '3', '--routes', 'api']))
+    sp.append(('c14-hand-tight', ['--conf', 'tight', '--gset', 'hand', '--syms', 'SIL,AH,G,OW,T,_', '--segs', '3', '--routes', 'api']))
+    if tier == 'thorough':
+        sp.append(('c14-enum23', ['--conf', 'default', '--gset', 'enum:2:3', '--words', 'a,go,no', '--syms', SYM3, '--segs', '2', '--routes', 'api,jsgf']))
+    return sp
+
+
 DEC_ASSUME = ['audio is represented by per-frame symbols over a small phone alphabet: senone scores are base(symbol, phone of senone) + a fixed '
               'per-senone jitter, supplied through the interposed acmod_score; the front end, feature buffering and every search decision are real',
               'dictionary of 14 words over the en-us phone set (one-, two-, three-phone words, shared prefixes, alternates); model en-us only',
@@ -192,6 +224,33 @@ CHECKS = {
              '(compared when the result spans all frames). non-trivial = a hypothesis was returned',
         assumptions=DEC_ASSUME + ['the reference expands the grammar the search runs on (after add_silence/add_alt/closure, which C13 covers)',
                                   'context conventions granted to the decoder are those documented in fsg_lextree.c/fsg_search.c (see harness/refviterbi.h)'] + TRUST,
+    ),
+    'C04': dict(
+        title='forced alignment is a consistent words > phones > states hierarchy',
+        level='exploration',
+        runs={'quick': _dec_runs('C04', _c04_specs('quick')), 'thorough': _dec_runs('C04', _c04_specs('thorough'))},
+        budget_s={'quick': 400, 'thorough': 3000},
+        coverage=ex_cov,
+        rule='grammars (incl. alignment-text chains) x utterances x beams x {final; partial after frames 1,5,9,.. with the utterance continuing}: '
+             'decoder_alignment words == dictionary words of the first-pass segmentation with equal start/duration; phones == '
+             'decoder_lookup_word pronunciation; states == the phone\'s emitting senones; children partition parents with positive '
+             'durations from frame 0; parent score == sum of children; every state score recomputed independently from the injected score '
+             'table and the transition matrix (emissions + self-loops + exit transition); second call returns the same object / same failure',
+        assumptions=DEC_ASSUME + ['state scores are checked against the senone scores the aligner was given (the second pass uses its own '
+                                  'context conventions, so they are not compared with first-pass word scores)'] + TRUST,
+    ),
+    'C14': dict(
+        title='the JSON result is well-formed and says what the iterators say',
+        level='exploration',
+        runs={'quick': _dec_runs('C14', _c14_specs('quick')), 'thorough': _dec_runs('C14', _c14_specs('thorough'))},
+        budget_s={'quick': 400, 'thorough': 3000},
+        coverage=ex_cov,
+        rule='every final result and every 4th partial result of the exploration x level {0,1,2} x start {0,1.5} x frate {100,50}: strict '
+             'RFC 8259 parse, exactly one trailing newline, strlen+1 == allocation size, t/b/d/p of the top level and of every word, '
+             'phone and state entry equal to hypothesis / segment iterator / alignment iterators (numbers compared as printed, %.3f); '
+             'grammars include words spelled with a quote, a backslash, UTF-8 bytes and a control character; empty results included',
+        assumptions=DEC_ASSUME + ['the top-level duration is compared with decoder_n_frames()/frate, whatever that function reports',
+                                  'with an alignment level > 0 a NULL return is accepted exactly when decoder_alignment() is NULL'] + TRUST,
     ),
     'C03': dict(
         title='word segmentation tiles the utterance and agrees with hypothesis and score',
@@ -303,6 +362,17 @@ CHECKS = {
 PENDING_REASON = {}
 
 MANIFEST_TEXT = {
+    'C04': dict(
+        text='Every alignment obtained in the bounded exhaustive decoder exploration (final and mid-utterance) is checked structurally '
+             'against segmentation and dictionary, and every state score is recomputed from first principles out of the injected score table.',
+        design_ref='DESIGN.md section 2, H7 (C04)', technique='bounded exhaustive enumeration with independent recomputation of every alignment score',
+        note='as C01'),
+    'C14': dict(
+        title='',
+        text='Every JSON string produced in the exploration, for all levels/offsets/frame rates and for spellings from every character '
+             'class the dictionary accepts, goes through a strict parser and a field-by-field comparison with the iterator interfaces.',
+        design_ref='DESIGN.md section 2, H7 (C14)', technique='bounded exhaustive enumeration with strict JSON parsing and differential comparison',
+        note='as C01'),
     'C01': dict(
         text='Bounded exhaustive exploration of the real decoder through its public API: every grammar of a canonical enumeration, reaching '
              'the decoder by four routes, against every "audio" over a finite symbol alphabet (the only seam is the senone score table), '
